@@ -127,8 +127,9 @@ namespace Pistache::Tcp
                 if (!isRaw())
                     return BufferHolder(_fd, size_, offset);
 
-                auto detached = _raw.copy(offset);
-                return BufferHolder(detached);
+                // keep the whole buffer and remember how far it has been written: the
+                // promise of a resumed write must still report the full size
+                return BufferHolder(_raw, offset);
             }
 
         private:
